@@ -13,7 +13,7 @@ CP=/opt/veriftools/tla/tla2tools.jar:/opt/veriftools/tla/CommunityModules-deps.j
 OPTS="-Xss1g -Xmx$HEAP -XX:+UseParallelGC"
 [ $DEQUE = 1 ] && OPTS="$OPTS -Dtlc2.tool.queue.IStateQueue=StateDeque"
 cd "$HERE/spec"
-timeout "$TMO" java $OPTS -cp "$CP" tlc2.TLC -metadir "$MD" "$@"
+timeout "$TMO" java $OPTS -cp "$CP" tlc2.TLC -noGenerateSpecTE -metadir "$MD" "$@"
 RC=$?
 rm -rf "$MD"
 exit $RC
